@@ -109,6 +109,14 @@ Theorem h2_unanchored_name_refuted : exists n v l, h2_putheader false H2CHARS n 
 Proof. exists [120; 10], [49], [120; 10]. split; [vm_compute; reflexivity|right; left; reflexivity]. Qed.
 Print Assumptions h2_unanchored_name_refuted.
 
+(* through RequestMethods.request the method is upper-cased by str.upper() before it is checked: a method with a non-ASCII letter
+   whose upper-case form is ASCII is written as a token the caller did not give (known finding C10-F2) *)
+Theorem non_ascii_method_written_refuted : exists m w,
+  ascii m = false /\ request_head [] (S!"h") (S!"ua") (py_upper m) (S!"/") [] = inl w /\
+  read_request w = Some (S!"POST", S!"/", [(HOST, S!"h"); (AE, IDENTITY); (CL, [48]); (UA, S!"ua")], []).
+Proof. exists (S!"po" ++ [383] ++ S!"t"). eexists. split; [vm_compute; reflexivity|]. split; vm_compute; reflexivity. Qed.
+Print Assumptions non_ascii_method_written_refuted.
+
 (* non-vacuity: hostile inputs that are refused, and folded values that are written and read back *)
 Definition S_ := str_of_string.
 Example refused :
